@@ -131,7 +131,7 @@ class _Child:
         return stack
 
 
-def run_cases(fn, cases, *, timeout=20.0, nproc=16, mem=3 << 30, slice_size=None, timeout_fn=None, progress=None, max_hangs=12):
+def run_cases(fn, cases, *, timeout=20.0, nproc=16, mem=3 << 30, slice_size=None, timeout_fn=None, progress=None, max_hangs=12, _rerun=False):
     """Apply fn(case) to every case in forked children. Returns list[Outcome] aligned with cases.
     fn must return something picklable.  timeout is per case (or timeout_fn(case))."""
     n = len(cases)
@@ -214,6 +214,16 @@ def run_cases(fn, cases, *, timeout=20.0, nproc=16, mem=3 << 30, slice_size=None
         import shutil
 
         shutil.rmtree(tmpd, ignore_errors=True)
+    # A child serves a slice of cases.  When it dies, the case it was at is blamed - but a C extension that corrupted the heap during an
+    # EARLIER case of the slice makes a later, innocent case crash anywhere (seen: pyppmd, then a segmentation fault inside an import).
+    # A crash therefore counts only when the case kills a child of its own as well.
+    if slice_size > 1 and not _rerun:
+        crashed = [i for i in range(n) if out[i] is not None and out[i].status == "crash"]
+        if crashed:
+            again = run_cases(fn, [cases[i] for i in crashed], timeout=timeout, nproc=min(nproc, 4), mem=mem, slice_size=1,
+                              timeout_fn=timeout_fn, max_hangs=max_hangs, _rerun=True)
+            for i, o2 in zip(crashed, again):
+                out[i] = o2
     return out
 
 
